@@ -44,6 +44,12 @@ func makeSetConditions(tokens []token) (set []setCondition, err error) {
 			return sc, tokens[3:], nil
 		}
 
+		// A quoted string is a literal, never a field name or a function call.
+		if !tokens[2].isBareword {
+			sc.rType = String
+			return sc, tokens[3:], nil
+		}
+
 		// Seems like a function call?
 		if strings.HasSuffix(sc.rString, ")") {
 			functionStack, functionArg, err := funcs.NewFunctionStack(tokens[2].str)
